@@ -23,7 +23,8 @@ ArrowOf(t) == CASE t = "int" -> "int64" [] t = "i32" -> "int32" [] t = "str" -> 
 \* deriving from raw StreamState (is_exchange unknown = null).  "kind" edits between them = "change the state base class".
 Kinds   == {"unary_void", "unary_ret", "producer", "exchange", "rawstream"}
 Streams == {"producer", "exchange", "rawstream"}
-Hdrs    == {"none", "h1", "h2"}        \* h1, h2: two header dataclasses differing in ONE field's nullability
+Hdrs    == {"none", "h0", "h1", "h2"}  \* h1, h2: two header dataclasses differing in ONE field's nullability;
+                                       \* h0: a header dataclass with NO fields (declared header, empty schema)
 P(n, t, nul, dflt) == [n |-> n, t |-> t, nul |-> nul, dflt |-> dflt]      \* dflt: "none" | "d1" | "d2"
 \* result types: a dataclass RESULT is left out -- how the library materialises `-> Dc` / `-> Optional[Dc]` (nullable binary /
 \* struct) is a matter of the type mapping (C02/C06), not of whether describe reports the schema the server uses
